@@ -123,7 +123,7 @@ func genCase(rng *core.Rand, k int) *kase {
 	c.loaded = rng.Chance(1, 6)
 	// names
 	c.names = []nameInfo{{s: ""}}
-	nn := 1 + rng.Intn(5)
+	nn := 2 + rng.Intn(5)
 	for len(c.names) < 1+nn {
 		s := rng.Pick(namePool)
 		dup := false
@@ -146,11 +146,16 @@ func genCase(rng *core.Rand, k int) *kase {
 		if rng.Chance(1, 40) {
 			return 0
 		}
-		d := 1 + rng.Intn(len(c.names)-1)
-		if ns > 1 && d%ns != cur%ns && !rng.Chance(1, 6) {
-			d = 1 + rng.Intn(len(c.names)-1)
+		var own []int
+		for d := 1; d < len(c.names); d++ {
+			if ns <= 1 || d%ns == cur%ns {
+				own = append(own, d)
+			}
 		}
-		return d
+		if len(own) == 0 || rng.Chance(1, 12) {
+			return 1 + rng.Intn(len(c.names)-1)
+		}
+		return own[rng.Intn(len(own))]
 	}
 	pickNames := func(max int) []int {
 		var l []int
@@ -268,11 +273,11 @@ func genCase(rng *core.Rand, k int) *kase {
 }
 
 func (prop) Generate(rng *core.Rand, tier string, emit func(string)) {
-	n := 2500
+	n := 4000
 	k := 4
 	switch tier {
 	case "thorough":
-		n = 9000
+		n = 40000
 		k = 6
 	case "search":
 		n = 1500
